@@ -82,6 +82,8 @@ struct Options {
     std::string kissat = "";
     int dedupFailures = 1;
     bool noSlice = false;
+    std::string dumpDir;
+    bool profile = false;
     std::map<std::string, uint64_t> fixedChoice;   // --fix name=value: nixsym_choice(name, n) returns value without forking
     std::set<std::string> knownIds;
     std::set<std::string> noReplace;   // substrings of function names whose __vrt__ replacement is disabled   // ids with status 'known' in known_findings.json
@@ -106,7 +108,8 @@ public:
     std::map<std::string, Failure> knownHits;
     uint64_t pathsDone = 0, pathsKilledAssume = 0, pathsError = 0, pathsBudget = 0, forks = 0, totalInsns = 0;
     uint64_t qCached = 0; uint64_t poisonUsed = 0;
-    uint64_t qHeavy = 0; double slowestQ = 0;
+    uint64_t qHeavy = 0; double slowestQ = 0; uint64_t qRetry = 0; uint64_t stratWins[3] = {0, 0, 0};
+    std::map<std::string, std::pair<uint64_t, double>> profile;
     uint64_t qTotal = 0, qSat = 0, qUnsat = 0, qUnknown = 0; double solverS = 0;
     uint64_t assertsChecked = 0, assertsSymbolic = 0, pathsWithSymAssert = 0;
     std::vector<std::string> samplePaths;
